@@ -2,6 +2,7 @@ package main
 
 import (
 	"bytes"
+	"errors"
 	"fmt"
 	"sort"
 	"sync"
@@ -28,9 +29,99 @@ type RecStore struct {
 	// gcCalls counts SeekGC calls per prefix byte (including the ones that deleted nothing).
 	gcCalls []byte
 	closed  bool
+	// probe (persistent backends only) counts the backend's committed transactions; every recorded
+	// batch must be exactly one of them.
+	probe   commitProbe
+	split   []splitRec
+	checked int // calls whose commit count was checked
+	// failPuts > 0: the next PutChangeSet is refused (a backend write failure), nothing is written
+	failPuts, injected int
+	failHook           func() // runs while the refused PutChangeSet is "in progress"
+}
+
+var errInjected = errors.New("injected backend write failure")
+
+// FailNext makes the next PutChangeSet fail; Injected tells how many failures were delivered so far.
+func (s *RecStore) FailNext() {
+	s.mu.Lock()
+	s.failPuts++
+	s.mu.Unlock()
+}
+
+// FailNextWith: the next PutChangeSet fails after calling hook (without the store's lock held), so that
+// writes can arrive at the cache while the flush is in flight.
+func (s *RecStore) FailNextWith(hook func()) {
+	s.mu.Lock()
+	s.failPuts++
+	s.failHook = hook
+	s.mu.Unlock()
+}
+
+func (s *RecStore) Injected() int {
+	s.mu.Lock()
+	defer s.mu.Unlock()
+	return s.injected
+}
+
+// DisarmFailure withdraws a failure that was not delivered.
+func (s *RecStore) DisarmFailure() {
+	s.mu.Lock()
+	s.failPuts = 0
+	s.failHook = nil
+	s.mu.Unlock()
+}
+
+// splitRec: a PutChangeSet / SeekGC call that was not exactly one committed backend transaction.
+type splitRec struct {
+	batch    int    // index the batch has (or would have) in batches
+	what     string // "PutChangeSet" | "SeekGC"
+	commits  uint64
+	image    map[string][]byte // the database a crash right before the call's last commit leaves (nil: none)
+	why      string            // why there is no image
+	probeErr string
 }
 
 func NewRecStore(inner storage.Store) *RecStore { return &RecStore{inner: inner} }
+
+// NewProbedRecStore records the batches and checks them against the backend's commit counter.
+func NewProbedRecStore(inner storage.Store, p commitProbe) *RecStore {
+	return &RecStore{inner: inner, probe: p}
+}
+
+// probed runs one writing call of the backend between two readings of its commit counter.
+func (s *RecStore) probed(what string, nonEmpty func() bool, call func() error) error {
+	if s.probe == nil {
+		return call()
+	}
+	before, e1 := s.probe.counter()
+	err := call()
+	after, e2 := s.probe.counter()
+	switch {
+	case e1 != nil || e2 != nil:
+		s.split = append(s.split, splitRec{batch: len(s.batches), what: what, probeErr: fmt.Sprint(e1, e2)})
+	case err == nil && nonEmpty() && after-before == 1:
+		s.checked++
+	case err == nil && nonEmpty() && after-before != 1:
+		r := splitRec{batch: len(s.batches), what: what, commits: after - before}
+		if after-before >= 2 {
+			var ok bool
+			if r.image, ok, r.why = s.probe.imageBeforeLast(before); !ok {
+				r.image = nil
+			}
+		}
+		s.split = append(s.split, r)
+	case err != nil && after != before:
+		// a failed call must not have committed anything
+		s.split = append(s.split, splitRec{batch: len(s.batches), what: what + "-failed", commits: after - before})
+	}
+	return err
+}
+
+func (s *RecStore) Splits() ([]splitRec, int) {
+	s.mu.Lock()
+	defer s.mu.Unlock()
+	return append([]splitRec(nil), s.split...), s.checked
+}
 
 func (s *RecStore) Get(k []byte) ([]byte, error) { return s.inner.Get(k) }
 
@@ -45,8 +136,19 @@ func (s *RecStore) PutChangeSet(puts map[string][]byte, stor map[string][]byte) 
 		b.KV[k] = cloneVal(v)
 	}
 	s.mu.Lock()
+	if s.failPuts > 0 {
+		s.failPuts--
+		s.injected++
+		hook := s.failHook
+		s.failHook = nil
+		s.mu.Unlock()
+		if hook != nil {
+			hook()
+		}
+		return errInjected
+	}
 	defer s.mu.Unlock()
-	err := s.inner.PutChangeSet(puts, stor)
+	err := s.probed("PutChangeSet", func() bool { return len(b.KV) > 0 }, func() error { return s.inner.PutChangeSet(puts, stor) })
 	if err == nil && len(b.KV) > 0 {
 		s.batches = append(s.batches, b)
 	}
@@ -67,12 +169,14 @@ func (s *RecStore) SeekGC(rng storage.SeekRange, keepCont func(k, v []byte) (boo
 	}
 	s.mu.Lock()
 	defer s.mu.Unlock()
-	err := s.inner.SeekGC(rng, func(k, v []byte) (bool, bool) {
-		keep, cont := keepCont(k, v)
-		if !keep {
-			b.KV[string(k)] = nil
-		}
-		return keep, cont
+	err := s.probed("SeekGC", func() bool { return len(b.KV) > 0 }, func() error {
+		return s.inner.SeekGC(rng, func(k, v []byte) (bool, bool) {
+			keep, cont := keepCont(k, v)
+			if !keep {
+				b.KV[string(k)] = nil
+			}
+			return keep, cont
+		})
 	})
 	if err == nil {
 		s.gcCalls = append(s.gcCalls, b.GCPfx)
